@@ -29,49 +29,69 @@ open RModel
 
 abbrev Bytes := Array UInt8
 
+/-! Accessors: byte `i` of the stream, and the little-endian 16/32-bit words starting at byte `i`
+(`none` past the end of the stream). -/
+
 def u8 (b : Bytes) (i : Nat) : Option Nat := b[i]?.map (·.toNat)
 
-def u16 (b : Bytes) (i : Nat) : Option Nat := do
-  let lo ← u8 b i
-  let hi ← u8 b (i + 1)
-  pure (lo + 256 * hi)
+def u16 (b : Bytes) (i : Nat) : Option Nat :=
+  match u8 b i, u8 b (i + 1) with
+  | some lo, some hi => some (lo + 256 * hi)
+  | _, _ => none
 
-def u32 (b : Bytes) (i : Nat) : Option Nat := do
-  let lo ← u16 b i
-  let hi ← u16 b (i + 2)
-  pure (lo + 65536 * hi)
+def u32 (b : Bytes) (i : Nat) : Option Nat :=
+  match u16 b i, u16 b (i + 2) with
+  | some lo, some hi => some (lo + 65536 * hi)
+  | _, _ => none
+
+/-- `cnt` consecutive bytes starting at byte `pos` -/
+def bytes8 (b : Bytes) : (pos cnt : Nat) → Option (List Nat)
+  | _, 0 => some []
+  | pos, cnt + 1 =>
+    match u8 b pos, bytes8 b (pos + 1) cnt with
+    | some x, some xs => some (x :: xs)
+    | _, _ => none
 
 /-- `cnt` consecutive 16-bit words starting at byte `pos` -/
-def words16 (b : Bytes) (pos cnt : Nat) : Option (List Nat) :=
-  (List.range cnt).mapM fun k => u16 b (pos + 2 * k)
+def words16 (b : Bytes) : (pos cnt : Nat) → Option (List Nat)
+  | _, 0 => some []
+  | pos, cnt + 1 =>
+    match u16 b pos, words16 b (pos + 2) cnt with
+    | some x, some xs => some (x :: xs)
+    | _, _ => none
 
 def strictlyIncreasing : List Nat → Bool
   | a :: c :: t => a < c && strictlyIncreasing (c :: t)
   | _ => true
 
-/-- the values of a bitset container stored at byte `pos`, as a boundary list shifted by `base` -/
-def bitsetBounds (b : Bytes) (pos base : Nat) : Option (BSet × Nat) := do
-  let bytes ← (List.range 8192).mapM fun k => u8 b (pos + k)
-  -- bit j of the container = bit (j % 8) of byte (j / 8)   (little-endian 64-bit words)
-  let mut out : Array Nat := #[]
-  let mut prev := false
-  let mut count := 0
-  let mut j := 0
-  for byte in bytes do
-    for t in [0:8] do
-      let bit := byte / 2 ^ t % 2 == 1
-      if bit then count := count + 1
-      if bit != prev then out := out.push (base + j)
-      prev := bit
-      j := j + 1
-  if prev then out := out.push (base + 65536)
-  pure (out.toList, count)
+/-- the 8 bits of a byte, least significant first -/
+def byteBits (x : Nat) : List Bool := (List.range 8).map fun t => x / 2 ^ t % 2 == 1
+
+/-- boundaries of the set `{pos + j | bits[j]}`: a boundary wherever consecutive bits differ (`prev` = the bit just
+below `pos`), and a closing boundary after the last bit if it is set -/
+def edges : (pos : Nat) → (prev : Bool) → List Bool → BSet
+  | pos, prev, [] => if prev then [pos] else []
+  | pos, prev, bit :: t => if bit != prev then pos :: edges (pos + 1) bit t else edges (pos + 1) prev t
+
+/-- the values of a bitset container stored at byte `pos`, as a boundary list shifted by `base`, and their number -/
+def bitsetBounds (b : Bytes) (pos base : Nat) : Option (BSet × Nat) :=
+  match bytes8 b pos 8192 with
+  | none => none
+  | some bytes =>
+    -- bit j of the container = bit (j % 8) of byte (j / 8)   (little-endian 64-bit words)
+    let bits := bytes.flatMap byteBits
+    some (edges base false bits, bits.count true)
 
 /-- sorted, non-overlapping runs (start, length-1) inside the 16-bit range -/
 def runsSorted : List (Nat × Nat) → Bool
   | [(s, l)] => s + l ≤ 65535
   | (s, l) :: (s', l') :: t => s + l < s' && runsSorted ((s', l') :: t)
   | [] => true
+
+/-- consecutive words taken two by two -/
+def pairUp : List Nat → List (Nat × Nat)
+  | s :: l :: t => (s, l) :: pairUp t
+  | _ => []
 
 structure Decoded where
   set : BSet
@@ -80,57 +100,89 @@ structure Decoded where
 /-- decode one container; returns its set and the position after it -/
 def container (b : Bytes) (isRun : Bool) (key card pos : Nat) : Option (BSet × Nat) :=
   let base := key * 65536
-  if isRun then do
-    let nr ← u16 b pos
-    let ws ← words16 b (pos + 2) (2 * nr)
-    let rec pairUp : List Nat → List (Nat × Nat)
-      | s :: l :: t => (s, l) :: pairUp t
-      | _ => []
-    let runs := pairUp ws
-    if !runsSorted runs then none
-    else if (runs.map fun (_, l) => l + 1).sum != card then none
-    else if nr == 0 then none
-    else pure (Driver.unionAll (runs.map fun (s, l) => [base + s, base + s + l + 1]), pos + 2 + 4 * nr)
-  else if card ≤ 4096 then do
-    let vs ← words16 b pos card
-    if !strictlyIncreasing vs then none
-    else pure (Driver.unionAll (vs.map fun v => [base + v, base + v + 1]), pos + 2 * card)
-  else do
-    let (s, cnt) ← bitsetBounds b pos base
-    if cnt != card then none else pure (s, pos + 8192)
+  if isRun then
+    match u16 b pos with
+    | none => none
+    | some nr =>
+      match words16 b (pos + 2) (2 * nr) with
+      | none => none
+      | some ws =>
+        let runs := pairUp ws
+        if !runsSorted runs then none
+        else if (runs.map fun (_, l) => l + 1).sum != card then none
+        else if nr == 0 then none
+        else some (Driver.unionAll (runs.map fun (s, l) => [base + s, base + s + l + 1]), pos + 2 + 4 * nr)
+  else if card ≤ 4096 then
+    match words16 b pos card with
+    | none => none
+    | some vs =>
+      if !strictlyIncreasing vs then none
+      else some (Driver.unionAll (vs.map fun v => [base + v, base + v + 1]), pos + 2 * card)
+  else
+    match bitsetBounds b pos base with
+    | none => none
+    | some (s, cnt) => if cnt != card then none else some (s, pos + 8192)
 
-/-- `specDecode bytes = some ⟨S, m⟩` : the first `m` bytes are a spec-conformant stream encoding `S` -/
-def specDecode (b : Bytes) : Option Decoded := do
-  let cookie ← u32 b 0
-  let (n, runBits, pos) ←
-    if cookie == 12346 then do
-      let n ← u32 b 4
-      pure (n, (none : Option Nat), 8)
+/-- is container `i` flagged as a run container?  `runBits` = position of the run bitset (cookie 12347 only) -/
+def runFlag (b : Bytes) (runBits : Option Nat) (i : Nat) : Option Bool :=
+  match runBits with
+  | none => some false
+  | some rb =>
+    match u8 b (rb + i / 8) with
+    | none => none
+    | some byte => some (byte / 2 ^ (i % 8) % 2 == 1)
+
+/-- the containers `i, i+1, …` described by the (key, cardinality) list, the first one stored at byte `p`;
+`offs` = position of the offset header when there is one (its `i`-th word must then be the position of
+container `i`).  Returns the containers' sets and the position after the last one. -/
+def containers (b : Bytes) (runBits offs : Option Nat) : (i : Nat) → List (Nat × Nat) → (p : Nat) → Option (List BSet × Nat)
+  | _, [], p => some ([], p)
+  | i, (key, card) :: rest, p =>
+    match runFlag b runBits i with
+    | none => none
+    | some isRun =>
+      let offsetOk := match offs with
+        | none => true
+        | some o => u32 b (o + 4 * i) == some p
+      if !offsetOk then none else
+      match container b isRun key card p with
+      | none => none
+      | some (s, p') =>
+        match containers b runBits offs (i + 1) rest p' with
+        | none => none
+        | some (ss, q) => some (s :: ss, q)
+
+/-- cookie header: number of containers, position of the run bitset (if any), position of the descriptive header -/
+def cookieHeader (b : Bytes) : Option (Nat × Option Nat × Nat) :=
+  match u32 b 0 with
+  | none => none
+  | some cookie =>
+    if cookie == 12346 then
+      match u32 b 4 with
+      | none => none
+      | some n => some (n, none, 8)
     else if cookie % 65536 == 12347 then
       let n := cookie / 65536 + 1
-      pure (n, some 4, 4 + (n + 7) / 8)
+      some (n, some 4, 4 + (n + 7) / 8)
     else none
-  if n > 65536 then none
-  let hdr ← words16 b pos (2 * n)
-  let keys := (List.range n).map fun i => hdr.getD (2 * i) 0
-  let cards := (List.range n).map fun i => hdr.getD (2 * i + 1) 0 + 1
-  if !strictlyIncreasing keys then none
-  let pos := pos + 4 * n
-  let hasOffsets := runBits.isNone || n ≥ 4
-  let offs ← if hasOffsets then (List.range n).mapM (fun i => u32 b (pos + 4 * i)) else pure []
-  let mut p := if hasOffsets then pos + 4 * n else pos
-  let mut sets : Array BSet := #[]
-  for i in [0:n] do
-    let isRun ← match runBits with
-      | none => pure false
-      | some rb => do
-        let byte ← u8 b (rb + i / 8)
-        pure (byte / 2 ^ (i % 8) % 2 == 1)
-    if hasOffsets then
-      if offs.getD i 0 != p then none
-    let (s, p') ← container b isRun (keys.getD i 0) (cards.getD i 0) p
-    sets := sets.push s
-    p := p'
-  pure { set := Driver.unionAll sets.toList, consumed := p }
+
+/-- `specDecode bytes = some ⟨S, m⟩` : the first `m` bytes are a spec-conformant stream encoding `S` -/
+def specDecode (b : Bytes) : Option Decoded :=
+  match cookieHeader b with
+  | none => none
+  | some (n, runBits, pos) =>
+    if n > 65536 then none else
+    match words16 b pos (2 * n) with
+    | none => none
+    | some hdr =>
+      let desc := pairUp hdr                       -- (key, cardinality - 1)
+      if !strictlyIncreasing (desc.map (·.1)) then none else
+      let pos := pos + 4 * n
+      let hasOffsets := runBits.isNone || n ≥ 4
+      let offs := if hasOffsets then some pos else none   -- word `i` is read (and must exist) with container `i`
+      let p := if hasOffsets then pos + 4 * n else pos
+      match containers b runBits offs 0 (desc.map fun (k, c) => (k, c + 1)) p with
+      | none => none
+      | some (sets, q) => some { set := Driver.unionAll sets, consumed := q }
 
 end RModel.FormatSpec
